@@ -24,3 +24,67 @@ Proof.
   split; [repeat constructor; cbn; intuition congruence|].
   intros k Hk. cbn in Hk. unfold NN. cbn. intuition lia.
 Qed.
+
+(* =====================================================================================
+   fingerprint 'a' is sound (uses Proofs/FingerprintFacts.v)
+   ===================================================================================== *)
+From Ctg Require Import FingerprintFacts DiskFSFacts.
+
+Lemma firstn_skipn_inj {A} n (a b : list A) : firstn n a = firstn n b -> skipn n a = skipn n b -> a = b.
+Proof. intros E1 E2. rewrite <- (firstn_skipn n a), <- (firstn_skipn n b), E1, E2. reflexivity. Qed.
+
+(* equal cache keys come from equal fingerprints, when sha1 o pickle separates them *)
+Lemma key_of_inj (H : fpr -> name) c q1 q2 :
+  (forall f g, H f = H g -> f = g) ->
+  key_of H c q1 = key_of H c q2 -> fingerprint (method_b c) q1 = fingerprint (method_b c) q2.
+Proof.
+  intros Hinj. unfold key_of. destruct (split c); intros E; inversion E as [E1]; apply Hinj.
+  - apply (firstn_skipn_inj 2); assumption.
+  - exact E1.
+Qed.
+
+(* Two contractions with the same 'a' fingerprint differ only by the order of indices within
+   each tensor and within the output (and the order of the size_dict items); then every tree
+   (hence every path) over one is a tree over the other with the same per-node index counts,
+   the same flops / write / max size -- also after slicing any list of indices -- the same
+   number of tensors, so the same paths are valid, and the same indices exist in both. *)
+Theorem fingerprint_a_sound n1 n2 : fp_a n1 = fp_a n2 -> NoDup (map fst (szd n1)) ->
+  equiv_a n1 n2 /\ NN n1 = NN n2 /\
+  (forall p, path_to_tree (NN n1) p = path_to_tree (NN n2) p) /\
+  (forall j, In j (all_indices n1) <-> In j (all_indices n2)) /\
+  (forall sl t, inrange n1 (leaves t) ->
+     inrange n2 (leaves t) /\ costs n1 sl t = costs n2 sl t /\
+     (forall t', In t' (t :: post_sub t) -> forall j, lget0 j (sub_legs n1 sl t') = lget0 j (sub_legs n2 sl t'))).
+Proof.
+  intros E ND. pose proof (fp_a_equiv n1 n2 E) as EQ.
+  pose proof (equiv_a_same_counts n1 n2 EQ ND) as SC.
+  pose proof (sc_NN n1 n2 SC) as ENN.
+  split; [exact EQ|]. split; [exact ENN|]. split; [intros p; rewrite ENN; reflexivity|].
+  split; [intros j; apply equiv_a_same_indices; exact EQ|].
+  intros sl t HR. destruct (cost_perm_invariant n1 n2 sl t EQ ND HR) as (HR2 & (Cf & Cw & Cm) & L).
+  split; [exact HR2|]. split; [unfold costs; rewrite Cf, Cw, Cm; reflexivity|exact L].
+Qed.
+
+(* consequently a cache hit under the default fingerprint rebuilds, for the QUERIED
+   contraction, a tree with exactly the figures the stored one had for the contraction
+   that was searched *)
+Corollary hit_view_same_under_a n1 n2 c : fp_a n1 = fp_a n2 -> NoDup (map fst (szd n1)) ->
+  match reconstruct n1 c, reconstruct n2 c with
+  | Some (t1, sl1), Some (t2, sl2) =>
+      t1 = t2 /\ sl1 = sl2 /\ (inrange n1 (leaves t1) -> costs n1 sl1 t1 = costs n2 sl2 t2)
+  | None, None => True
+  | _, _ => False
+  end.
+Proof.
+  intros E ND. destruct (fingerprint_a_sound n1 n2 E ND) as (_ & _ & HP & HI & HC).
+  unfold reconstruct. rewrite <- HP.
+  destruct (path_to_tree (NN n1) (c_path c)) as [t|]; [|exact I].
+  assert (F : forallb (fun j => memb j (all_indices n1)) (c_sliced c) =
+              forallb (fun j => memb j (all_indices n2)) (c_sliced c)).
+  { induction (c_sliced c) as [|j l IHl]; cbn; [reflexivity|]. rewrite IHl. f_equal.
+    destruct (memb j (all_indices n1)) eqn:M1; destruct (memb j (all_indices n2)) eqn:M2; try reflexivity.
+    - apply memb_In in M1. apply HI in M1. apply memb_In in M1. congruence.
+    - apply memb_In in M2. apply HI in M2. apply memb_In in M2. congruence. }
+  rewrite <- F. destruct (forallb (fun j => memb j (all_indices n1)) (c_sliced c)); [|exact I].
+  split; [reflexivity|]. split; [reflexivity|]. intros HR. apply (HC _ t HR).
+Qed.
